@@ -17,6 +17,9 @@ from sim.shrink import ddmin
 from . import libops, storegen as sg
 
 LEVEL = 'exploration'
+COMPONENTS = {
+    'real': ['GroupLibrary.Load/_Load/_do_load/Update', 'yaml_io (schema, loaders)', 'Units', 'ThermochemGroup/Incomplete/RawData incl. yaml_format', 'Group.parse', 'PyYAML', 'numpy', 'scipy'],
+    'stubs': ['file system: SimFS (in-memory) behind open/os of Library, Scheme, DataDir, with a fault plan', 'reference model of union / conflict / hull (storegen.py)', 'a one-pattern scheme file']}
 ASSUMPTIONS = [
     'the reference model (storegen.py: union of records, conflict unless '
     'overwrite, hull of ranges) is the meaning of the property statements; '
